@@ -7,6 +7,8 @@ is not a "change that still passes the existing tests" and is skipped); then the
 file run (VERIF_REPO=<worktree>) until one reports a violation. Results: /tmp/wt/mutsweep/results.<worker>.jsonl
 """
 import json, os, random, re, signal, subprocess, sys
+import os as _os
+VERIF_HOME = _os.environ.get("VERIF_HOME") or _os.path.dirname(_os.path.dirname(_os.path.abspath(__file__)))
 
 wid, nw = int(sys.argv[1]), int(sys.argv[2])
 maxper = int(sys.argv[3]) if len(sys.argv) > 3 else 30
@@ -106,7 +108,7 @@ for (f, checks, text, (ln, what, newline)) in todo:
         rec["checks"] = {}
         for cid in checks:
             ev = dict(env, VERIF_REPO=wt, VERIF_EVIDENCE_DIR="/tmp/wt/ev-ms%d" % wid, VERIF_REPLAY_DIR="/tmp/wt/rp-ms%d" % wid, VERIF_PAR="6")
-            pr = subprocess.Popen(["/verif/check", cid, "quick"], env=ev, stdout=subprocess.PIPE, text=True, start_new_session=True)
+            pr = subprocess.Popen([VERIF_HOME + "/check", cid, "quick"], env=ev, stdout=subprocess.PIPE, text=True, start_new_session=True)
             try:
                 so, _ = pr.communicate(timeout=600)
             except subprocess.TimeoutExpired:
